@@ -282,3 +282,111 @@ Proof.
   rewrite E. cbn [bind]. pose proof W as (Ww & Ws & Wl).
   rewrite (isorti_wf_id _ Ww). exists t'. destruct t'. simpl in *. auto.
 Qed.
+
+(* ------------------------------------------------------------------ *)
+(* mergeLabels made explicit                                            *)
+
+Definition merge_piece (B : list interval) (i : interval) : list interval :=
+  let c := crop_spec_ents (istart i) (iend i) Truncated B in
+  match c, last_opt c with
+  | c0 :: _, Some cl =>
+      [mkI (Z.min (istart i) (istart c0)) (Z.max (iend i) (iend cl))
+           (ilabel i ++ LPAREN ++ join COMMA (map ilabel c) ++ RPAREN)]
+  | _, _ => []
+  end.
+
+Definition merge_entries (A B : list interval) : list interval := flat_map (merge_piece B) A.
+
+Lemma merge_fold B is_ : forall acc, wf_itier B -> Forall pos is_ ->
+  fold_res (fun acc i =>
+              do c <- crop_i B (istart i) (iend i) Truncated false;
+              match ients c, last_opt (ients c) with
+              | c0 :: _, Some cl =>
+                  Ok (acc ++ [mkI (Z.min (istart i) (istart c0)) (Z.max (iend i) (iend cl))
+                                  (ilabel i ++ LPAREN ++ join COMMA (map ilabel (ients c)) ++ RPAREN)])
+              | _, _ => Ok acc
+              end) is_ acc
+  = Ok (acc ++ merge_entries is_ (ients B)).
+Proof.
+  induction is_ as [|i is_ IH]; intros acc HB Hp.
+  - unfold merge_entries. cbn [fold_res flat_map]. f_equal. symmetry. apply app_nil_r.
+  - unfold merge_entries. cbn [fold_res flat_map]. fold (merge_entries is_ (ients B)).
+    inversion Hp as [|? ? Hi Hp']; subst.
+    rewrite (crop_i_spec _ _ _ _ _ HB). unfold crop_spec.
+    destruct (Z.leb_spec (iend i) (istart i)); [unfold pos in Hi; lia|]. cbn [bind ients].
+    unfold merge_piece at 1.
+    destruct (crop_spec_ents (istart i) (iend i) Truncated (ients B)) as [|c0 c'] eqn:EC.
+    + cbn [bind app]. exact (IH acc HB Hp').
+    + destruct (last_opt (c0 :: c')) as [cl|] eqn:EL.
+      * cbn [bind]. rewrite IH by assumption. now rewrite <- app_assoc.
+      * cbn [bind app]. exact (IH acc HB Hp').
+Qed.
+
+Lemma last_opt_in {A} (l : list A) x : last_opt l = Some x -> In x l.
+Proof.
+  induction l as [|a l IH]; [discriminate|]. destruct l as [|b l']; cbn [last_opt].
+  - intros [= <-]. now left.
+  - intro H. right. apply IH. exact H.
+Qed.
+
+Lemma merge_piece_ok B : wf_ients B -> pieces_ok (fun x => x) (merge_piece B).
+Proof.
+  intros HB i Hi. unfold merge_piece.
+  set (c := crop_spec_ents (istart i) (iend i) Truncated B).
+  assert (Forall (in_span (istart i) (iend i)) c) as Sc by (apply crop_ents_in_window; discriminate).
+  destruct c as [|c0 c'] eqn:EC; [split; [apply wf_ients_nil|constructor]|].
+  destruct (last_opt (c0 :: c')) as [cl|] eqn:EL; [|split; [apply wf_ients_nil|constructor]].
+  rewrite Forall_forall in Sc.
+  pose proof (Sc c0 (or_introl eq_refl)) as [S0 _]. pose proof (Sc cl (last_opt_in _ _ EL)) as [_ S1].
+  unfold pos in Hi.
+  assert (Z.min (istart i) (istart c0) = istart i) as -> by lia.
+  assert (Z.max (iend i) (iend cl) = iend i) as -> by lia.
+  split.
+  - apply wf_ients_cons. split; [exact Hi|]. split; [constructor|apply wf_ients_nil].
+  - constructor; [|constructor]. unfold in_span; simpl; lia.
+Qed.
+
+Lemma stripped_paren a b : stripped a -> stripped (a ++ LPAREN ++ b ++ RPAREN).
+Proof.
+  intro Ha. apply stripped_iff in Ha as [A1 A2]. apply stripped_iff. split.
+  - destruct a; [reflexivity|exact A1].
+  - rewrite !rev_app_distr. reflexivity.
+Qed.
+
+(* mergeLabels(A,B): one entry per interval of A that B overlaps, with A's extent, labelled a(b1,b2,...) *)
+Theorem merge_labels_explicit A B :
+  wf_itier A -> wf_itier B ->
+  merge_labels_i A B =
+  Ok (mkIT (iname A ++ DASH ++ iname B) (merge_entries (ients A) (ients B))
+           (hull_min (merge_entries (ients A) (ients B)) (imin A))
+           (hull_max (merge_entries (ients A) (ients B)) (imax A))).
+Proof.
+  intros HA HB. pose proof HA as (WA & SA & LA). pose proof HB as (WB & SB & LB).
+  unfold merge_labels_i. rewrite merge_fold by (assumption || apply WA). cbn [bind app].
+  apply new_itier_ok.
+  - apply (flat_map_wf (fun x => x)); [intros; lia|apply merge_piece_ok, WB|exact WA].
+  - unfold labels_stripped, merge_entries. apply Forall_forall. intros k Hk.
+    apply in_flat_map in Hk as (i & Hi & Hk). unfold merge_piece in Hk.
+    destruct (crop_spec_ents (istart i) (iend i) Truncated (ients B)) as [|c0 c'] eqn:EC; [contradiction|].
+    destruct (last_opt (c0 :: c')); [|contradiction]. destruct Hk as [<-|[]]. cbn [ilabel].
+    apply stripped_paren. unfold labels_stripped in LA. rewrite Forall_forall in LA. apply LA, Hi.
+Qed.
+
+(* an interval of A appears iff some interval of B overlaps it, and then with exactly its own extent *)
+Corollary merge_labels_extent (B : list interval) (i : interval) :
+  wf_ients B -> pos i ->
+  match merge_piece B i with
+  | [] => crop_spec_ents (istart i) (iend i) Truncated B = []
+  | [k] => istart k = istart i /\ iend k = iend i
+  | _ => False
+  end.
+Proof.
+  intros HB Hi. unfold merge_piece.
+  set (c := crop_spec_ents (istart i) (iend i) Truncated B).
+  assert (Forall (in_span (istart i) (iend i)) c) as Sc by (apply crop_ents_in_window; discriminate).
+  destruct c as [|c0 c'] eqn:EC; [reflexivity|].
+  destruct (last_opt (c0 :: c')) as [cl|] eqn:EL.
+  - rewrite Forall_forall in Sc. pose proof (Sc c0 (or_introl eq_refl)) as [S0 _]. pose proof (Sc cl (last_opt_in _ _ EL)) as [_ S1].
+    unfold pos in Hi. cbn [istart iend]. lia.
+  - exfalso. clear - EL. revert c0 EL. induction c' as [|b c' IH]; intros c0 EL; [discriminate|]. cbn [last_opt] in EL. exact (IH b EL).
+Qed.
